@@ -61,9 +61,22 @@ def build_factory(cfg):
         bb, cs, rows, obj = make_blackbox(cfg["n_a"], cfg["n_seeds"], cfg["R"], cfg["timecol"])
 
         class ChoiceTimeKeeper(SimulatedTimeKeeper):
+            # the real time spent outside the backend since its last exit is one environment answer per exit: asking again
+            # before the next mark_exit() gives the same answer (and charging it again is charging waiting time twice)
+            _epoch, _pending = 0, None
+
+            def mark_exit(self):
+                super().mark_exit()
+                self._epoch += 1
+                self._pending = None
+
             def real_time_since_last_recent_exit(self):
                 self._assert_has_started()
-                return OUTSIDE[chooser.choose("outside", len(OUTSIDE))] if cfg.get("outside", True) else 0.0
+                again = self._pending is not None
+                if not again:
+                    self._pending = OUTSIDE[chooser.choose("outside", len(OUTSIDE))] if cfg.get("outside", True) else 0.0
+                log.append(("outside", self._epoch, self._pending, again))
+                return self._pending
 
         class SimBackend(UserBlackboxBackend):
             # besides the C10 probes, emit the ground-truth events monitors.lifecycle understands (used by C01)
@@ -144,7 +157,8 @@ def build_factory(cfg):
         simcb = SimulatorCallback()
         tuner = Tuner(trial_backend=backend, scheduler=sched, stop_criterion=StoppingCriterion(**cfg["stop"]),
                       n_workers=cfg["W"], sleep_time=0, callbacks=[rec, ClockProbe("before"), simcb, ClockProbe("after")],
-                      save_tuner=False, suffix_tuner_name=False, tuner_name="verif-c10", max_failures=3)
+                      save_tuner=False, suffix_tuner_name=False, tuner_name="verif-c10", max_failures=3,
+                      start_jobs_without_delay=cfg.get("nodelay", True))
         return dict(tuner=tuner, backend=backend, scheduler=sched, simcb=simcb, obj=obj, rows=rows)
     return build
 
@@ -198,6 +212,9 @@ def check_factory(cfg):
                 if last_clock is not None and clk < last_clock - 1e-12:
                     v.append(("clock:runs-backwards", f"simulated time went from {last_clock} to {clk} at {k}"))
                 last_clock = clk
+            if k == "outside" and e[3] and e[2] > 0:
+                v.append(("clock:outside-time-charged-twice", f"{e[2]} s spent outside the backend (since its exit #{e[1]}) were added to the "
+                                                              f"simulated clock a second time"))
             if k == "sleep_before":
                 sleep_before = e[1]
             elif k == "sleep_after":
@@ -362,6 +379,13 @@ def configs(tier, seed):
                     out.append(dict(kind=kind, ckpt=(W == 1), mra=False, timecol=timecol, simconf=simconf, sleep=sleep, W=W,
                                     n_a=2, n_seeds=1, R=4, seed=seed, bseed=0, stop={"max_num_trials_started": 4},
                                     k=1 if tier == "quick" else 2, loop_cap=3000, max_exec=60 if tier == "quick" else 600))
+    # start_jobs_without_delay=False: the tuner asks the backend which trials are busy before it starts new ones (one more
+    # backend entry point that must not charge the time spent outside a second time)
+    for kind in ("fifo-random", "hb-stopping", "hb-promotion"):
+        for W in (1, 2):
+            out.append(dict(kind=kind, ckpt=True, mra=(W == 2), timecol="monotone", simconf="default", sleep=0.1, W=W,
+                            n_a=2, n_seeds=1, R=3, seed=seed, bseed=0, stop={"max_num_trials_started": 3}, nodelay=False,
+                            k=1 if tier == "quick" else 2, loop_cap=400, max_exec=60 if tier == "quick" else 600))
     # more workers and longer learning curves: many queued events of several trials while one of them is stopped
     for kind in ("hb-stopping", "hb-promotion", "median"):
         for timecol in ("monotone", "nonmono"):
